@@ -2,7 +2,7 @@ from common import *
 
 PROPERTY = "C16"
 QUICK_SAMPLE = 0
-STUBS = [("std::fmt::format", "crate::c16::fmt_stub"), ("std::backtrace::Backtrace::capture", "crate::c16::backtrace_stub")]
+STUBS = [("std::fmt::format", "crate::c16::fmt_stub"), ("std::backtrace::Backtrace::capture", "crate::c16::backtrace_stub"), ("poulpy_cpu_ref::hal_defaults::scratch::take_slice_aligned", "crate::vz::take_slice_aligned_stub")]
 D = "poulpy-ckks/src/leveled/default"
 MAXU = 18446744073709551615
 
@@ -54,6 +54,6 @@ META = {
     "bounds": "module degree 1 (coefficient-wise linear code), base2k 17, operands of 2-3 limbs with metadata from a concrete grid (aligned / a above b / b above a / different log_delta), destinations of 1-3 limbs (offset > 0 cases), bits in {0,1,5,14,31,32,2^64-2,2^64-1}",
     "outside": "slot encoding/decoding (special FFT in floats), multiplication family, rotate/conjugate (key-switch through the DFT), random programs beyond the single-step inductive argument, the 2^-log_delta noise term",
     "assumptions": ["operand metadata consistent with its capacity (log_delta+log_budget <= max_k), as set_meta_checked enforces", "std::fmt::format and std::backtrace::Backtrace::capture stubbed (anyhow error construction)"],
-    "stubs": ["std::fmt::format", "std::backtrace::Backtrace::capture"],
+    "stubs": ["std::fmt::format", "std::backtrace::Backtrace::capture", "take_slice_aligned (private, hal_defaults/scratch.rs) replaced by a copy deriving the 64-byte padding from the window offset inside the aligned harness arena instead of the pointer integer (same function on these arenas; the real one is decided by C12 scratch.take_slice*)"],
 }
 THOROUGH_SAMPLE = 6
